@@ -153,6 +153,16 @@ def roles(rep, ex: Explorer):
         n += 1
         rep.check(ok, "CNF.roles", site2, "query CNFs", "query_to_cnf returns [CNF(A∧B), CNF(A∧¬B)] in this order", extracted=got, required="[Q.A∧Q.B, Q.A∧¬Q.B]", function=site2)
     rep.floor("CNF.roles query_to_cnf paths", n, 1)
+    # CNF.pool: the id pool only grows - nothing rewinds or replaces it while the state lives (the optimizer's helper
+    # variables are handed out lazily from the same pool; an id given out twice names two different things)
+    for which, pp in (("belief_base_to_cnf", ex.run(qual, setup, summaries=summ, key="cnfroles")), ("query_to_cnf", paths)):
+        w_site = fn_label(ex.prog, f"{TS}.{which}")
+        for p in pp:
+            for ev, Q in iter_events(p.events):
+                if ev.kind == "attr.set" and ev.data.get("cls") == "IDPool":
+                    rep.violation("CNF.pool", f"{w_site}:{ev.node.lineno}", f"pool.{ev.attr} assigned", "ids handed out stay handed out: the pool of a state is never rewound", extracted=f"pool.{ev.attr} = {ev.value!r}"[:120], required="no assignment to the pool's counters", function=w_site)
+                if ev.kind == "dict.set" and isinstance(ev.key, Const) and ev.key.value == "pool":
+                    rep.violation("CNF.pool", f"{w_site}:{ev.node.lineno}", "pool replaced", "one id pool per state: translating a base or a query never replaces it", extracted="state['pool'] assigned", required="the pool of the state", function=w_site)
 
 
 def _formats_formula(d):
